@@ -235,12 +235,18 @@ def parseBool (s : Bytes) : Option Bool :=
 def boolBad (q : List (Bytes × Bytes)) (k : Bytes) : Bool := !(qGet q k).isEmpty && (parseBool (qGet q k)).isNone
 def intBad (q : List (Bytes × Bytes)) (k : Bytes) : Bool := !(qGet q k).isEmpty && (atoi (qGet q k)).isNone
 
-/-- value of `replication-min` / `-max` after the `replication` override -/
-def replStr (q : List (Bytes × Bytes)) (k : Bytes) : Bytes :=
-  if (qGet q b!"replication").isEmpty then qGet q k else qGet q b!"replication"
+/-- the replication factor the request asks for under key `k` (`replication-min` / `-max`):
+    `replication`, when given, overrides both (PinOptions.FromQuery; values are validated by `addParamsErr`) -/
+def replVal (q : List (Bytes × Bytes)) (k : Bytes) : Int :=
+  if !(qGet q b!"replication").isEmpty then (atoi (qGet q b!"replication")).getD 0
+  else if (qGet q k).isEmpty then 0 else (atoi (qGet q k)).getD 0
 
-def replBad (q : List (Bytes × Bytes)) (k : Bytes) : Bool := !(replStr q k).isEmpty && (atoi (replStr q k)).isNone
-def replVal (q : List (Bytes × Bytes)) (k : Bytes) : Int := if (replStr q k).isEmpty then 0 else (atoi (replStr q k)).getD 0
+/-- PinOptions.FromQuery refuses the pin options (fix b5b684c: every value given must parse — an unknown `mode`,
+    a malformed `replication-min`/`-max` even when `replication` overrides it, a malformed `replication`) -/
+def pinOptsErr (q : List (Bytes × Bytes)) : Bool :=
+  !((qGet q b!"mode").isEmpty || qGet q b!"mode" == b!"recursive" || qGet q b!"mode" == b!"direct") ||
+  intBad q b!"replication-min" || intBad q b!"replication-max" || intBad q b!"replication" ||
+  (!(qGet q b!"shard-size").isEmpty && !uintOK (qGet q b!"shard-size"))
 
 /-- strings.ToLower on ASCII -/
 def lower (s : Bytes) : Bytes := s.map (fun c => if 65 ≤ c && c ≤ 90 then c + 32 else c)
@@ -253,17 +259,16 @@ def hashNeedsV1 (q : List (Bytes × Bytes)) : Bool :=
 
 /-- api.AddParamsFromQuery returns an error (for the keys the model covers) -/
 def addParamsErr (q : List (Bytes × Bytes)) : Bool :=
-  hashNeedsV1 q ||
-  replBad q b!"replication-min" || replBad q b!"replication-max" ||
-  (!(qGet q b!"shard-size").isEmpty && !uintOK (qGet q b!"shard-size")) ||
+  pinOptsErr q || hashNeedsV1 q ||
   !(qGet q b!"layout" == b!"trickle" || qGet q b!"layout" == b!"balanced" || (qGet q b!"layout").isEmpty) ||
   !(qGet q b!"format" == b!"car" || qGet q b!"format" == b!"unixfs" || (qGet q b!"format").isEmpty) ||
   boolBad q b!"local" || boolBad q b!"recursive" || boolBad q b!"hidden" || boolBad q b!"wrap-with-directory" ||
   boolBad q b!"shard" || boolBad q b!"progress" || intBad q b!"cid-version" ||
   boolBad q b!"raw-leaves" || boolBad q b!"stream-channels" || boolBad q b!"nocopy"
 
-/-- options of `add` the model does not cover (time-dependent or structured values, sharding, CAR import) -/
+/-- options of `add` the model does not cover (time-dependent or structured values, peer IDs, sharding, CAR import) -/
 def addUnmodelled (q : List (Bytes × Bytes)) : Bool :=
+  !(qGet q b!"user-allocations").isEmpty ||
   !(qGet q b!"expire-at").isEmpty || !(qGet q b!"expire-in").isEmpty || !(qGet q b!"pin-update").isEmpty ||
   !(qGet q b!"origins").isEmpty || parseBool (qGet q b!"shard") == some true || parseBool (qGet q b!"nocopy") == some true ||
   qGet q b!"format" == b!"car"
